@@ -7,7 +7,7 @@ git -C /repo worktree remove --force $WT >/dev/null 2>&1
 git -C /repo worktree add -f $WT HEAD >/dev/null 2>&1 || exit 2
 for d in seeded/S*; do
   id=$(basename $d); case "$id" in *${1:-}*) ;; *) continue;; esac
-  prop=$(python3 -c "import json;print(json.load(open('$d/meta.json'))['breaks_property'])")
+  prop=$(python3 -c "import json;m=json.load(open('$d/meta.json'));print(m.get('check_to_run', m['breaks_property']))")
   git -C $WT checkout -q -- . ; git -C $WT apply $PWD/$d/patch.diff 2>/dev/null || { echo "$id: patch does not apply"; continue; }
   VERIF_REPO=$WT ./check $prop > /tmp/seedreg_$id.log 2>&1; rc=$?
   echo "$id $prop exit=$rc $(grep -c '^VIOLATION' /tmp/seedreg_$id.log) violation line(s), $(grep -c 'no-failing-input-found' /tmp/seedreg_$id.log) without native confirmation"
